@@ -173,6 +173,7 @@ func c06Discipline(run *PropRun) {
 	if lc := e.Specs.LockClasses["tScreen"]; lc != nil {
 		d := &discAnalysis{e: e, lc: lc, named: named, sites: map[string]*discSite{}, memo: map[string]heldSet{}, inprog: map[string]bool{}}
 		d.waitSites = map[string]bool{}
+		d.blockSites = map[string]*chanSite{}
 		for _, nme := range []string{"Fini", "Suspend", "Resume"} {
 			if sel := ms.Lookup(sp.Pkg, nme); sel != nil {
 				d.entry(e.Prog.MethodValue(sel))
@@ -187,6 +188,21 @@ func c06Discipline(run *PropRun) {
 			run.AddObligation(k, "discipline", BoolT(d.waitSites[k]), "wg.Wait is reached only with the screen lock released (the goroutines it waits for take that lock)")
 		}
 		run.AddObligation("tScreen/wait-sites-found", "discipline", BoolT(len(ws) >= 1), "the wg.Wait call of disengage was found on the Fini/Suspend paths")
+		// a goroutine disengage waits for never parks on a channel while it holds the screen lock: disengage takes that
+		// lock before it closes stopQ, so a reader blocked in a send with the lock held is never told to stop
+		var bs []string
+		for k, s := range d.blockSites {
+			if reach[s.Fn] {
+				bs = append(bs, k)
+			}
+		}
+		sort.Strings(bs)
+		for _, k := range bs {
+			s := d.blockSites[k]
+			g := run.AddObligation(k, "discipline", BoolT(s.Ok), "a blocking channel operation in a goroutine disengage waits for is reached only with the screen lock released: disengage takes the lock before it closes stopQ ("+e.posStr(s.Pos)+")")
+			g.Pos = e.posStr(s.Pos)
+		}
+		run.AddObligation("tScreen/blocking-sites-lock-state-found", "discipline", BoolT(len(bs) >= 2), "the lock state at the blocking channel operations of the waited goroutines was computed")
 	} else {
 		run.Errors = append(run.Errors, "no lockclass for tScreen in the contract files")
 	}
@@ -249,5 +265,32 @@ func c06Discipline(run *PropRun) {
 	run.AddObligation("tScreen.(*tScreen).engage/registers-resize-callback", "discipline", BoolT(regOK), "every engage that starts the tty has registered a (non-nil) resize callback before, so resize delivery works again after Suspend/Resume")
 	db, _, dnil := findInvoke(diseng, "NotifyResize")
 	run.AddObligation("tScreen.(*tScreen).disengage/unregisters-resize-callback", "discipline", BoolT(db != nil && dnil), "disengage unregisters the resize callback (NotifyResize(nil))")
+	// the reader parked in tty.Read is woken by Drain; that has to happen before disengage waits for it
+	drainFirst := false
+	if diseng != nil {
+		var drainB, waitB *ssa.BasicBlock
+		drainI, waitI := -1, -1
+		closeB, closeI := (*ssa.BasicBlock)(nil), -1
+		for _, b := range diseng.Blocks {
+			for i, in := range b.Instrs {
+				if c, ok := in.(*ssa.Call); ok {
+					if c.Common().IsInvoke() && c.Common().Method.Name() == "Drain" && drainB == nil {
+						drainB, drainI = b, i
+					}
+					if callee := c.Common().StaticCallee(); callee != nil && callee.String() == "(*sync.WaitGroup).Wait" && waitB == nil {
+						waitB, waitI = b, i
+					}
+					if bi, isB := c.Common().Value.(*ssa.Builtin); isB && bi.Name() == "close" && chanName(c.Common().Args[0]) == "stopQ" && closeB == nil {
+						closeB, closeI = b, i
+					}
+				}
+			}
+		}
+		before := func(ab *ssa.BasicBlock, ai int, bb *ssa.BasicBlock, bi int) bool {
+			return ab != nil && bb != nil && (ab == bb && ai < bi || ab != bb && ab.Dominates(bb))
+		}
+		drainFirst = before(drainB, drainI, waitB, waitI) && before(closeB, closeI, waitB, waitI)
+	}
+	run.AddObligation("tScreen.(*tScreen).disengage/stop-closed-and-tty-drained-before-wait", "discipline", BoolT(drainFirst), "disengage closes stopQ and drains the tty (which wakes a reader parked in tty.Read) before it waits for the goroutines")
 	run.AddObligation("tScreen.(*tScreen).finish/quit-closed-before-wait", "discipline", BoolT(closeFirst), "finish closes quit before finalize/disengage waits for the goroutines (blocked event deliveries are released first)")
 }
